@@ -22,7 +22,8 @@ SOURCE_KINDS = ("src", "timer", "fb")
 UNARY = ("pass", "add", "acc", "count", "delay", "echo")
 BINARY = ("sum2", "sumu", "sample", "sample2", "sampleu", "lsum", "lsumv")
 # sample2 / sampleu: sum2 / sumu whose second input is used passively (passive(port) at the call site)
-PASSIVE_USAGE = {"sample2": "sum2", "sampleu": "sumu"}
+PASSIVE_USAGE = {"sample2": "sum2", "sampleu": "sumu", "psum2a": "sum2"}   # psum2a: the FIRST input is the passive one
+TERNARY = ("sum3",)
 
 
 # --------------------------------------------------------------------------------------------- rendering
@@ -57,7 +58,9 @@ def _stmt(i, n, ref):
         s += " " + " ".join(kv)
     if n["ins"]:
         refs = [ref(j) for j in n["ins"]]
-        if n["kind"] in PASSIVE_USAGE:
+        if n["kind"] == "psum2a":
+            refs[0] = "p:" + refs[0]
+        elif n["kind"] in PASSIVE_USAGE:
             refs[1] = "p:" + refs[1]
         s += " in=" + ",".join(refs)
     return s
@@ -230,7 +233,7 @@ def gen_script(rng, horizon, maxlen=4, values=(1, 2, 3, 5, 7)):
 
 def random_program(rng, pid, max_nodes=6, horizon=7, kinds=None, allow_fb=True, start=None):
     """Random DAG over the vocabulary: 1-2 sources, compute nodes, 1-2 recorders; optionally one feedback loop."""
-    kinds = kinds or (UNARY + BINARY)
+    kinds = kinds or (UNARY + BINARY + TERNARY + TERNARY)
     nodes = []
     nsrc = rng.randint(1, 2)
     for _ in range(nsrc):
@@ -248,7 +251,13 @@ def random_program(rng, pid, max_nodes=6, horizon=7, kinds=None, allow_fb=True, 
     for _ in range(ncomp):
         kind = rng.choice(kinds)
         avail = list(range(1, len(nodes) + 1))
-        if kind in BINARY:
+        if kind in TERNARY:
+            a, b = rng.choice(avail), rng.choice(avail)
+            c = rng.choice([a, b, rng.choice(avail)])      # often a repeated port: one producer feeding two inputs
+            ins = [a, b, c]
+            rng.shuffle(ins)
+            nodes.append(node(kind, ins=ins))
+        elif kind in BINARY:
             a, b = rng.choice(avail), rng.choice(avail)
             nodes.append(node(kind, ins=[a, b]))
         else:
